@@ -396,4 +396,45 @@ pub fn gen_heap(files: &BTreeMap<String, syn::File>, out: &mut String) {
         }
     }
     writeln!(out, "Definition gen_heap_table : list (string * hbody) :=\n  [{}].", rows.join(";\n   ")).unwrap();
+    // default_boxed: `Box::<GenericArray<T, N>>::generate(|_| T::default())`
+    let r: R<()> = (|| {
+        for it in &file.items {
+            let Item::Impl(im) = it else { continue };
+            if im.trait_.is_some() || ty_of(&im.self_ty).ok() != Some(Ty::Arr) {
+                continue;
+            }
+            for ii in &im.items {
+                let ImplItem::Fn(f) = ii else { continue };
+                if f.sig.ident != "default_boxed" {
+                    continue;
+                }
+                if f.block.stmts.len() != 1 {
+                    return Err("default_boxed is not one expression".to_string());
+                }
+                let e = match &f.block.stmts[0] {
+                    Stmt::Expr(e, None) => e,
+                    _ => return Err("default_boxed is not one expression".to_string()),
+                };
+                let ok = match strip(e) {
+                    Expr::Call(c) if path_of(&c.func) == ["Box", "generate"] && c.args.len() == 1 => match strip(&c.args[0]) {
+                        Expr::Closure(cl) if cl.inputs.len() == 1 && matches!(cl.inputs[0], Pat::Wild(_)) => match strip(&cl.body) {
+                            Expr::Call(d) => path_of(&d.func) == ["T", "default"] && d.args.is_empty(),
+                            _ => false,
+                        },
+                        _ => false,
+                    },
+                    _ => false,
+                };
+                if !ok {
+                    return Err("default_boxed is not Box::<..>::generate(|_| T::default())".to_string());
+                }
+                return Ok(());
+            }
+        }
+        Err("default_boxed not found".to_string())
+    })();
+    match r {
+        Ok(()) => writeln!(out, "\n(* GenericArray::default_boxed = Box::<GenericArray<T, N>>::generate(|_| T::default()): the boxed generate\n   (GenPipe.gen_boxed_generate) with T::default as the caller's function *)\nDefinition gen_default_boxed_is_generate : bool := true.").unwrap(),
+        Err(e) => println!("ERROR GenHeap.v default_boxed: {}", e),
+    }
 }
